@@ -7,6 +7,7 @@ package fixture
 import (
 	"bufio"
 	"bytes"
+	"crypto"
 	"crypto/ecdsa"
 	"crypto/elliptic"
 	"encoding/asn1"
@@ -604,4 +605,36 @@ func testsOneUsesOther(a authIn) string {
 		oid = strings.TrimSpace(a.Oid)
 	}
 	return oid
+}
+
+// LINT-MAPINIT: the list for a key is made afresh whenever ANOTHER map lacks the key.
+type relations struct {
+	known map[string]int
+	below map[string][]string
+}
+
+func forgetsSiblings(r *relations, parent, child string) {
+	if _, ok := r.known[parent]; !ok {
+		r.below[parent] = make([]string, 0, 8)
+	}
+	r.below[parent] = append(r.below[parent], child)
+}
+
+// REGISTRY-KEEP: an empty entry in the place of one that holds the key.
+type built struct {
+	Key crypto.PrivateKey
+	Der []byte
+}
+
+type store struct {
+	cfgs  map[string]string
+	built map[string]*built
+}
+
+func dropsWhatWasStored(s *store, alias, cfg string) {
+	old, existed := s.cfgs[alias]
+	s.cfgs[alias] = cfg
+	if existed && old != cfg {
+		s.built[alias] = &built{}
+	}
 }
